@@ -18,5 +18,6 @@ OpsArith == {"arith", "diag", "reduce", "transpose", "einsum"}
 OpsAlgebra == {"arith", "diag", "reduce", "conj", "expand", "phase", "einsum"}
 OpsEinsum == {"einsum", "transpose", "conj", "phase", "reduce"}
 OpsChain == {"chain"}
+OpsChainD == {"chain", "chain_dangling"}
 OpsStruct == {"transpose", "conj", "expand", "fuse", "phase"}
 =============================================================================
